@@ -16,6 +16,9 @@ func init() {
 
 var uniNames = []string{"plain.dat", "with space.bin", "файл.dat", "文件.bin", "\U0001F600smile.dat", "áccent.txt", "\U00010348gothic", "UPPER.DAT", "dots.in.name", "x", "back\\slash.txt", "a[1]*?.dat", "-dash", "semi;colon&amp", "trailing.", "q'uo\"te"}
 
+// index file base names: the volume names are derived from them (extension replaced), so their spelling matters
+var p1Bases = []string{"arch", "backup", "data", "photos.tar", "a", "par", "x.p01", "with space", "UPPER", "r.a.p", "app"}
+
 func runP1Big(args []string) error {
 	c := newCommon("p1big")
 	count := c.fs.Int("n", 0, "number of scenarios")
@@ -88,7 +91,8 @@ func runP1Big(args []string) error {
 			prot[names[0]] = []byte{42}
 		}
 		dir := filepath.Join(c.dir, fmt.Sprintf("p1big-%d", idx))
-		a, err := buildArch1(dir, names, prot, nv, "arch")
+		base := p1Bases[idx%len(p1Bases)]
+		a, err := buildArch1(dir, names, prot, nv, base)
 		if err != nil {
 			return fmt.Errorf("scenario %d: %v", idx, err)
 		}
@@ -99,7 +103,7 @@ func runP1Big(args []string) error {
 			for _, p := range a.CreateCreated {
 				ok := p == a.Index
 				for v := 1; v <= nv; v++ {
-					if p == volName("arch", v) {
+					if p == volName(base, v) {
 						ok = true
 					}
 				}
@@ -134,7 +138,7 @@ func runP1Big(args []string) error {
 			rng.Read(big)
 			prot[names[0]] = big
 			os.WriteFile(filepath.Join(dir, names[0]), big, 0644)
-			if a, err = buildArch1(dir, names, prot, nv, "arch"); err != nil {
+			if a, err = buildArch1(dir, names, prot, nv, base); err != nil {
 				return err
 			}
 			a.Others["readme.txt"] = []byte("bystander")
